@@ -164,6 +164,13 @@ def build_history(recs, delim, probe):
                 return conv, None   # accepted although it collides: that is C05's subject; this history is abandoned
             except ValueError:
                 pass
+        if i == 0 and len(recs) >= 2 and recs[1].prefix != r.prefix:
+            # a merging call whose record names two different existing records must be refused too - and if it is not, the
+            # prefixes keep resolving to the records they belong to (the comparison below is with the unchanged model)
+            try:
+                conv.add_record(Record(prefix=r.prefix, uri_prefix=r.uri_prefix, prefix_synonyms=[recs[1].prefix]), merge=True)
+            except ValueError:
+                pass
         probe(conv, m)
         for s in r.psyn:
             conv.add_record(Record(prefix=s, uri_prefix=r.uri_prefix), merge=True)
